@@ -1,6 +1,7 @@
 package main
 
 import (
+	"bytes"
 	"encoding/json"
 	"fmt"
 	"reflect"
@@ -130,6 +131,8 @@ func (v *LV) Build(r *Rng) any {
 		return v.F
 	case "jnum":
 		return json.Number(v.S)
+	case "buf": // an io.WriterTo-valued binding
+		return bytes.NewBufferString(v.S)
 	case "tnil": // typed nils
 		switch v.R {
 		case "slice":
@@ -306,6 +309,9 @@ func genScalar(r *Rng) *LV {
 func genScalar1(r *Rng) *LV {
 	switch r.weighted([]int{4, 4, 2, 1, 1, 1, 1, 1}) {
 	case 6:
+		if r.Chance(0.4) {
+			return &LV{T: "buf", S: pick(r, []string{"ab", "buffered text", ""})}
+		}
 		return &LV{T: "jnum", S: pick(r, []string{"12", "3.5", "-7", "1e3", "0"})}
 	case 7:
 		return &LV{T: "tnil", R: pick(r, []string{"slice", "map", "strptr", "struct"})}
@@ -519,6 +525,12 @@ func GenEnv(r *Rng, mapLo, mapHi int) *Env {
 func stripPtr(v *LV) {
 	if v.R == "ptr" || v.R == "ptrs" {
 		v.R = ""
+	}
+	if v.T == "buf" { // *bytes.Buffer is a pointer
+		v.T = "str"
+	}
+	if v.T == "tnil" {
+		v.T, v.R = "nil", ""
 	}
 	if v.T == "struct" {
 		v.B = false
